@@ -49,6 +49,25 @@ seed2 = {
   "lib": module("lib", "lb", [], gs=[grouping("lg", leaf("la"), cont("lc", leaf("lb1")))]),
 }
 
+# uses-augment that adds a case holding a uses; a submodule included by a submodule (with a body
+# node and a module-level augment of its own); a grouping that shadows nothing but lives in a container
+seed3 = {
+  "m": module("m", "m", includes=["s1"],
+    gs=[grouping("base", leaf("bl"), choice("how", case("x", leaf("lx")))),
+        grouping("endpoint", leaf("port", dflt="80"), leaf("host"))],
+    body=[
+        cont("c", uses("base", aug=[dict(path=["how"], c=[case("y", uses("endpoint"))])]), leaf("after")),
+        cont("box", uses("inner"), leaf("bx"), gs=[grouping("inner", leaf("il", desc="inner one"))]),
+        cont("top", leaf("t1"), leaf("t2")),
+    ]),
+  "s1": module("s1", "m", sub=True, belongs="m", includes=["s2"],
+    body=[cont("from-s1", leaf("a1"))]),
+  "s2": module("s2", "m", sub=True, belongs="m",
+    gs=[grouping("g2", leaf("deep"))],
+    body=[cont("from-s2", uses("g2"))],
+    augs=[dict(path=["top"], c=[leaf("added-by-s2")], mod="")]),
+}
+
 # C02: typedef chains, scopes, reuse
 tseed1 = {"m": module("m", "m",
     tds=[typedef("t1", ty("int32", rng="0..100"), dflt="5", units="u1"),
@@ -81,5 +100,5 @@ tseed2 = {
 json.dump([tseed1, tseed2], open(os.path.join(os.path.dirname(os.path.abspath(__file__)), "..", "spec", "yangtypeseeds.json"), "w"), indent=0)
 
 out = os.path.join(os.path.dirname(os.path.abspath(__file__)), "..", "spec", "yangseeds.json")
-json.dump([seed1, seed2], open(out, "w"), indent=0)
+json.dump([seed1, seed2, seed3], open(out, "w"), indent=0)
 print("wrote", out)
